@@ -1,9 +1,11 @@
 SPECIFICATION Spec
 CONSTANTS
-  MaxTok = 4
+  MaxTok = 3
   Alphabet = {"ident", "delim", "star", "open", "close", "lbrace", "rbrace", "colon", "semi", "atrl", "atdl", "atun", "ws", "comment", "cpname", "cdo", "other"}
+  Modes = {TRUE, FALSE}
   Emit = FALSE
-  AtDeclEndsAtEOF = TRUE
+  AtDeclEndsAtEOF = FALSE
   StarAloneAtEOF = TRUE
   GuardedPop = TRUE
+PROPERTY Refines
 CHECK_DEADLOCK FALSE
